@@ -26,6 +26,8 @@ fn mods_menu(dst: u8, rich: bool) -> Vec<ModSpec> {
         2 => v.push(ModSpec::Mirror(None)),
         3 => {
             v.extend([ModSpec::Bits(settings::KEY4), ModSpec::Bits(settings::KEY7), ModSpec::HoldOff, ModSpec::Invert, ModSpec::HoIn(None)]);
+            // the same mods mode-less and by reference, next to legacy mods that occupy two bits (NC = NC|DT, PF = PF|SD)
+            v.extend([ModSpec::IntermodeRef("HO"), ModSpec::IntermodeRef("NCHO"), ModSpec::IntermodeRef("PFHO"), ModSpec::IntermodeRef("DTHO"), ModSpec::IntermodeRef("NCIN"), ModSpec::IntermodeRef("NCPFHO")]);
             if rich {
                 v.extend([ModSpec::Bits(settings::KEY1), ModSpec::Bits(settings::KEY9), ModSpec::TenKeys, ModSpec::Random(Some(7.0))]);
             }
@@ -112,7 +114,7 @@ fn main() {
                 };
                 l.checked(1);
                 // Invert rebuilds the object list inside the calculation (the last note of a column has no successor to hold to)
-                if dst != 2 && !matches!(m, ModSpec::Invert | ModSpec::HoIn(_)) && total != want_total {
+                if dst != 2 && !matches!(m, ModSpec::Invert | ModSpec::HoIn(_)) && !m.has_acronym("IN") && total != want_total {
                     l.violation("total", || ctxs(format!("full calculation counts {total} but the converted map has {want_total}: {full:?}")));
                     return;
                 }
@@ -131,12 +133,12 @@ fn main() {
                         }
                     }
                     DifficultyAttributes::Mania(a) => {
-                        if matches!(m, ModSpec::HoldOff) {
+                        if matches!(m, ModSpec::HoldOff) || m.has_acronym("HO") {
                             if a.n_hold_notes != 0 {
                                 l.violation("holdoff", || ctxs(format!("HoldOff but n_hold_notes={}", a.n_hold_notes)));
                                 return;
                             }
-                        } else if !matches!(m, ModSpec::Invert | ModSpec::HoIn(_)) {
+                        } else if !matches!(m, ModSpec::Invert | ModSpec::HoIn(_)) && !m.has_acronym("IN") {
                             l.checked(1);
                             if a.n_hold_notes != s + sp + h {
                                 l.violation("mania_holds", || ctxs(format!("n_hold_notes={} but the converted map has {} long notes", a.n_hold_notes, s + sp + h)));
@@ -172,7 +174,7 @@ fn main() {
                         }
                     }
                     if let DifficultyAttributes::Mania(ma) = &a {
-                        if !matches!(m, ModSpec::HoldOff | ModSpec::Invert | ModSpec::Random(_) | ModSpec::HoIn(_)) {
+                        if !matches!(m, ModSpec::HoldOff | ModSpec::Invert | ModSpec::Random(_) | ModSpec::HoIn(_) | ModSpec::IntermodeRef(_)) {
                             let (_, ps, psp, ph) = kind_counts(&conv, n as usize);
                             if ma.n_hold_notes != ps + psp + ph {
                                 l.violation("mania_split", || ctxs(format!("passed_objects({n}): n_hold_notes={} but prefix has {}", ma.n_hold_notes, ps + psp + ph)));
